@@ -134,6 +134,18 @@ func domTyp(r *gen.Rng, n int, thorough bool, o *Out) {
 			// a related value: regenerate with the same key universe (shares many members)
 			v2 = c.gs.RootValue(cr.Fork(7), ref, 4, &optsR)
 		}
+		if cr.Chance(4) { // root-leaf pairs: empty / null on both sides
+			v1 = gen.Pick(cr, []interface{}{nil, map[string]interface{}{}, []interface{}{}})
+			v2 = gen.Pick(cr, []interface{}{nil, map[string]interface{}{}, []interface{}{}, gen.DeepCopy(v1)})
+		}
+		if dupL && dupR && cr.Chance(50) {
+			// duplicates on both sides with different multiplicities: v2 = v1 with one more copy of a member
+			v2 = addDuplicate(cr, gen.DeepCopy(v1))
+			if cr.Bool() {
+				v1 = addDuplicate(cr, gen.DeepCopy(v1))
+				v2 = addDuplicate(cr, gen.DeepCopy(v1))
+			}
+		}
 		corrupt := cr.Chance(12)
 		if corrupt {
 			v1 = sgen.Corrupt(cr, v1)
@@ -190,6 +202,12 @@ func domTyp(r *gen.Rng, n int, thorough bool, o *Out) {
 			}
 			same, cmpOK = cmp.IsSame(), true
 			judgeCompare(o, opC, a, b, cmp, dupL || dupR)
+			if cr.Chance(30) {
+				disturb(c, cr)
+				if again, err := a.Compare(b); err != nil || cmpString(again) != cmpString(cmp) {
+					o.Fail("C09", "same-call-same-result-after-other-calls", "Compare", "same-call-same-result-after-other-calls "+opC, opC)
+				}
+			}
 			return cmpString(cmp)
 		})
 
@@ -333,12 +351,17 @@ func judgeMerge(o *Out, op string, c *typCtx, tr schema.TypeRef, a, b, m *typed.
 		fail("result-valid", err.Error())
 		return
 	}
+	if _, err := typed.AsTyped(a.AsValue(), c.sc, tr); err == nil {
+		// the left side is duplicate-free: so must be the result (a right side with duplicates is an error)
+		if _, err := typed.AsTyped(m.AsValue(), c.sc, tr); err != nil {
+			fail("result-valid/duplicate-free", err.Error())
+		}
+	}
 	// merging R again is a no-op (syntactic)
 	m2, err := m.Merge(b)
 	if err != nil {
-		if !dupR {
-			fail("idempotent/error", err.Error())
-		}
+		// the first merge of R succeeded, so merging R again must be a no-op, not an error
+		fail("idempotent/error", err.Error())
 	} else if !value.Equals(m.AsValue(), m2.AsValue()) {
 		fail("idempotent", "")
 	}
